@@ -298,6 +298,15 @@ OtherPlan == {
   <<"bc", "response-two-different", "Accept">>,        \* ... with two different blocks for the height
   <<"bc", "response-nonassigned-peer", "Accept">>,     \* a peer the request was not assigned to
   <<"bc", "response-unrequested-height", "Accept">>,   \* a height nobody asked this peer for
+  \* genuine blocks 1..3, but block 3's LastCommit (stored as block 2's seen commit, later fed precommit by precommit to
+  \* VoteSet.AddVote by reconstructLastCommit at the switch to consensus and at every restart) has genuine precommits in the
+  \* low slots - already +2/3 - and this in the LAST slot.  ValidatorSet.VerifyCommit checks every slot: the block is
+  \* refused ("Drop") unless the slot is something a commit may contain ("Accept": block 2 executed, and the node comes up on it)
+  <<"bc", "commit-late-badsig", "Drop">>, <<"bc", "commit-late-wrong-height", "Drop">>, <<"bc", "commit-late-wrong-round", "Drop">>,
+  <<"bc", "commit-late-wrong-type", "Drop">>, <<"bc", "commit-late-wrong-index", "Drop">>, <<"bc", "commit-late-wrong-address", "Drop">>,
+  <<"bc", "commit-late-empty-address", "Drop">>, <<"bc", "commit-late-duplicate", "Drop">>,
+  <<"bc", "commit-late-nil", "Accept">>,               \* a validator may be absent from a commit
+  <<"bc", "commit-late-other-block", "Accept">>,       \* a validly signed precommit for another block does not count, and is no error
   <<"mempool", "tx-small", "Accept">>, <<"mempool", "tx-empty", "Accept">>, <<"mempool", "tx-big", "Accept">>,
   <<"mempool", "tx-over-limit", "Drop">>, <<"mempool", "tx-length-lie", "Drop">>, <<"mempool", "tx-neg-length", "Drop">>,
   <<"mempool", "tx-duplicate", "Drop">>, <<"mempool", "raw-empty", "Disconnect">>, <<"mempool", "raw-unknowntype", "Drop">>,
